@@ -307,7 +307,7 @@ func checkC18(r *harness.Run) harness.Coverage {
 			for round := 0; round < 2; round++ { // the same compiled expression over all documents, twice
 				for di, d := range embDocs {
 					gen := generic(d)
-					if _, isMap := d.(map[string]interface{}); isMap && pair[0] != pair[1] {
+					if _, isMap := d.(map[string]interface{}); isMap && pair[1] != "" && pair[0] != pair[1] {
 						continue // generic maps are matched by exact key; capitalisation applies to struct fields only
 					}
 					want, werr, wpn := impl.SearchOnce(pair[1], gen)
